@@ -363,6 +363,47 @@ pub fn run(args: &[&str]) -> String {
         }
       }
     }
+    ["jwkmulti", n] => {
+      // resolve_multiple over DIDJwk values: n textually different did:jwk DIDs that all encode ONE key (member order,
+      // whitespace, an extra optional member), one DID of another key, and a literal duplicate.  One entry per distinct DID
+      // (a DID is its string), each equal to what single resolution returns.
+      use identity_did::DIDJwk;
+      let Ok(n) = n.parse::<usize>() else { return "bad-request".into() };
+      let x = "11qYAYKxCrfVS_7TyWQHOg7hcvPapiMlrwIaaPcHURo";
+      let forms = [
+        format!(r#"{{"kty":"OKP","crv":"Ed25519","x":"{}"}}"#, x),
+        format!(r#"{{"crv":"Ed25519","kty":"OKP","x":"{}"}}"#, x),
+        format!(r#"{{"x":"{}","kty":"OKP","crv":"Ed25519"}}"#, x),
+        format!(r#"{{ "kty": "OKP", "crv": "Ed25519", "x": "{}" }}"#, x),
+        format!(r#"{{"kty":"OKP","crv":"Ed25519","x":"{}","kid":"k"}}"#, x),
+      ];
+      let mut strs: Vec<String> = forms.iter().take(n.min(forms.len())).map(|j| format!("did:jwk:{}", b64(j.as_bytes()))).collect();
+      strs.push(format!("did:jwk:{}", b64(br#"{"kty":"OKP","crv":"Ed25519","x":"AAAAAAAAAAAAAAAAAAAAAAAAAAAAAAAAAAAAAAAAAAA"}"#)));
+      strs.push(strs[0].clone());
+      let dids: Vec<DIDJwk> = match strs.iter().map(|s| DIDJwk::parse(s)).collect::<Result<_, _>>() {
+        Ok(d) => d,
+        Err(_) => return "bad-request".into(),
+      };
+      let mut r: Resolver<CoreDocument> = Resolver::new();
+      r.attach_did_jwk_handler();
+      let multi = match futures::executor::block_on(r.resolve_multiple(&dids)) {
+        Ok(m) => m,
+        Err(e) => return format!("err:{}", err_kind(&e).split(':').next().unwrap_or("?")),
+      };
+      let distinct: std::collections::BTreeSet<&String> = strs.iter().collect();
+      let mut fail = String::new();
+      if multi.len() != distinct.len() {
+        fail = format!("\t#FAIL:jwk-multi-entries:{} distinct did:jwk DIDs were given, {} entries came back", distinct.len(), multi.len());
+      }
+      for d in &dids {
+        let single = futures::executor::block_on(r.resolve(d)).ok();
+        let got = multi.iter().find(|(k, _)| k.as_str() == d.as_str()).map(|(_, v)| v.clone());
+        if fail.is_empty() && (single.is_none() || got != single) {
+          fail = format!("\t#FAIL:jwk-multi-differs-from-single:the entry for {} is not what single resolution returns", &d.as_str()[..30.min(d.as_str().len())]);
+        }
+      }
+      format!("ok:{}{}", multi.len(), fail)
+    }
     _ => "bad-request".into(),
   }
 }
@@ -428,7 +469,23 @@ pub fn gen(thorough: bool, seed: u64, out: &mut impl Write) {
     let rk: Vec<String> = (0..n).map(|_| r.below(10).to_string()).collect();
     writeln!(out, "C20 multi H={} D={} R={}", r.pick(&tables[1..]), ds.join(","), rk.join(",")).unwrap();
   }
+  // (b') long lists: more distinct DIDs than any plausible batch size, in rank order and against it, with duplicates,
+  // one failing resolution near the end
+  for count in [63usize, 64, 65, 66, 128, 129, 200] {
+    for (fail, rev) in [(false, false), (false, true), (true, false)] {
+      let mut ds: Vec<String> = (0..count).map(|i| format!("{}.{}", [3, 1, 2][i % 3], 2 * (i / 3))).collect();
+      if fail {
+        ds[count - 2] = "1.60".into();
+      }
+      ds.push(ds[0].clone());
+      let rk: Vec<String> = (0..ds.len()).map(|i| if rev { (ds.len() - i).to_string() } else { (i % 10).to_string() }).collect();
+      writeln!(out, "C20 multi H=1:1,2:2,3:3 D={} R={}", ds.join(","), rk.join(",")).unwrap();
+    }
+  }
   // (c) did:jwk
+  for n in [1usize, 2, 3, 5] {
+    writeln!(out, "C20 jwkmulti {}", n).unwrap();
+  }
   for v in ["ed", "edalg", "edx5", "p256", "rsa", "edchain", "priv", "garbage"] {
     writeln!(out, "C20 jwk {}", v).unwrap();
   }
